@@ -36,8 +36,11 @@ enum Obj {
 fn p2(e: i64) -> f64 {
     if e < 0 {
         0.0
-    } else {
+    } else if e <= 1022 {
         2f64.powi(-(e as i32))
+    } else {
+        // subnormal powers of two (down to 2^-1074) are exact products
+        f64::MIN_POSITIVE * 2f64.powi(-((e - 1022) as i32))
     }
 }
 fn mat(rows: &[Vec<i64>]) -> Array2<f64> {
@@ -521,6 +524,45 @@ pub fn drive(log: &mut Log) {
                     log.oblige("decoupled_takeover_below_500_nats");
                 }
                 let _ = ri;
+            }
+        }
+    }
+
+    // (f4) subnormal probabilities (2^-1030, 2^-1060, 2^-1074: positive, exactly representable)
+    // as a transition / emission / initial / end entry on the only or the best path
+    for (ei, &e) in [1030i64, 1060, 1074, 1023].iter().enumerate() {
+        for place in 0..4u64 {
+            for variant in 0..log.opts.n(1, 4) {
+                case += 1;
+                if !log.mine(case) {
+                    continue;
+                }
+                let mut rng = Rng::new(seed, 149, case);
+                // state 0 emits only symbol 0, state 1 only symbol 1; 0 -> 1 is the only way to explain "0 1"
+                let mut md = Mdl {
+                    s: 2,
+                    m: 2,
+                    a: vec![vec![rng.range(0, 2), rng.range(0, 3)], vec![-1, 0]],
+                    b: vec![vec![rng.range(0, 2), -1], vec![-1, rng.range(0, 2)]],
+                    pi: vec![0, -1],
+                    eps: vec![0, 0],
+                    kind: if place == 3 { "optend_some" } else if variant % 2 == 0 { "plain" } else { "optend_none" },
+                };
+                match place {
+                    0 => md.a[0][1] = e,
+                    1 => md.b[1][1] = e,
+                    2 => md.pi[0] = e,
+                    _ => md.eps = vec![-1, e],
+                }
+                if variant >= 2 {
+                    // a second, worse but possible explanation next to the subnormal one
+                    md.pi[1] = 5;
+                    md.b[1][0] = 40;
+                }
+                let obs: Vec<Vec<usize>> = vec![vec![0, 1], vec![0, 0, 1], vec![0, 1, 1]];
+                log.oblige("subnormal_probability_entry");
+                let _ = ei;
+                run_model(log, "subn", &md, &obs);
             }
         }
     }
